@@ -4,4 +4,5 @@ INVARIANT Bij
 INVARIANT Tiles
 INVARIANT Canon
 INVARIANT Counts
+INVARIANT Ranks
 CHECK_DEADLOCK FALSE
